@@ -183,6 +183,38 @@ theorem domain_span_found (p : ℕ) (Ul : List K) (n : ℕ) (hU : KvWF p Ul n) (
   refine ⟨a1, a2, hs.lo, hs.hi, hs.nonempty, fun h => (findSpanLinear_halfopen hU.mono hU.pn u h1 h).2.1, ?_⟩
   intro h; rw [h]; exact findSpanLinear_right_end hU.mono hU.pn
 
+/-- **Under `KnotsOk` the span found on the closed domain is never empty** (the fact behind `domain_span_found`, stated
+    for an arbitrary knot function): non-decreasing knots, `n ≥ p + 1`, non-empty last span `U_{n-1} < U_n`, `u ∈ [U_p,
+    U_n]` give `U_k < U_{k+1}` for `k = findSpanLinear p U n u` – so no division by zero occurs in A2.2 on the span found
+    (`Geomdl.findSpanLinear_dom`).  Every evaluation theorem of this file assumes `KnotsOk` (through `CurveWF`, `SurfWF`,
+    `KvWF`); knot vectors with an EMPTY last domain span are outside the model, see the next theorem. -/
+theorem span_found_nonempty_of_knotsOk (p : ℕ) (U : ℕ → K) (n : ℕ) (hU : KnotsOk p U n) (u : K)
+    (h1 : U p ≤ u) (h2 : u ≤ U n) :
+    U (findSpanLinear p U n u) < U (findSpanLinear p U n u + 1) :=
+  (findSpanLinear_dom hU u h1 h2).1.nonempty
+
+/-- **Without the non-empty last span the model's search finds an EMPTY span at the domain end** (F-01b, closed witness):
+    degree 2, `U = [0,0,1,2,4,4,5,5]` (accepted by `knotvector.check`, multiplicities `≤ 2`, unclamped), 5 control points,
+    domain `[1, 4]`: at `u = 4 = U_5` the model returns span `4` and `U_4 = U_5`, so `KnotsOk` fails exactly in its
+    `last` field and the model's A2.2 would divide by zero (`x / 0 = 0` in Lean: the model "evaluates" to `(0, 0)`).  The
+    pinned code raised `ZeroDivisionError` there; the repaired `find_span_linear` / `find_span_binsearch` step back to
+    the last non-empty span `3` (left limit).  The model does not have that step back: such knot vectors are outside
+    it, the driver ops answer ERR at such a parameter and the exact oracle alone checks the repaired behaviour
+    (harness streams `empty-last-span`). -/
+theorem span_found_empty_without_knotsOk :
+    findSpanLinear 2 (fnOf ([0,0,1,2,4,4,5,5] : List ℚ)) 5 4 = 4 ∧
+    fnOf ([0,0,1,2,4,4,5,5] : List ℚ) 4 = fnOf ([0,0,1,2,4,4,5,5] : List ℚ) 5 ∧
+    ¬ (fnOf ([0,0,1,2,4,4,5,5] : List ℚ) (5 - 1) < fnOf ([0,0,1,2,4,4,5,5] : List ℚ) 5) ∧
+    curvePoint 2 (fnOf ([0,0,1,2,4,4,5,5] : List ℚ)) [[0,0],[1,1],[2,0],[3,1],[4,0]] 4 = [0, 0] := by decide +kernel
+
+/-- non-vacuity of `span_found_nonempty_of_knotsOk`: strictly inside the same domain the span found is not empty
+    (`u = 39/10`: span `3 = [2, 4)`), and an unclamped vector WITH a non-empty last span meets `KnotsOk` -/
+example : findSpanLinear 2 (fnOf ([0,0,1,2,4,4,5,5] : List ℚ)) 5 (39/10) = 3 ∧
+    fnOf ([0,0,1,2,4,4,5,5] : List ℚ) 3 < fnOf ([0,0,1,2,4,4,5,5] : List ℚ) 4 := by decide +kernel
+
+example : KnotsOk 2 (fnOf ([0,1,2,3,4,5,6] : List ℚ)) 4 :=
+  ⟨mono_of_pairwise _ (by decide +kernel), by decide, by decide +kernel⟩
+
 /-- **The recursion of a span is the Cox–de Boor recursion on that span**: for `u` in the half-open
     span `κ` of a non-decreasing knot function, all degrees, all indices. -/
 theorem span_basis_eq_cox_de_boor (U : ℕ → K) (κ : ℕ) (u : K) (hm : Monotone U) (h1 : U κ ≤ u) (h2 : u < U (κ+1))
